@@ -158,6 +158,27 @@ func realise(v J, r *Repr, path string) (any, error) {
 		return testDrop{base}, nil
 	case "dropdrop":
 		return testDrop{testDrop{base}}, nil
+	case "ptrptr": // a pointer to a pointer to the value
+		switch b := base.(type) {
+		case int:
+			p := &b
+			return &p, nil
+		case string:
+			p := &b
+			return &p, nil
+		case []any:
+			p := &b
+			return &p, nil
+		case map[string]any:
+			p := &b
+			return &p, nil
+		}
+		return base, nil
+	case "ptrmapslice": // a pointer to an ordered map (realiseBase has built the MapSlice)
+		if ms, ok := base.(yaml.MapSlice); ok {
+			return &ms, nil
+		}
+		return base, nil
 	case "ptr":
 		switch b := base.(type) {
 		case int:
@@ -383,7 +404,7 @@ func realiseBase(v J, r *Repr, path, h string) (any, error) {
 			if len(out) == 0 {
 				return map[string]any(nil), nil
 			}
-		case "mapslice":
+		case "mapslice", "ptrmapslice":
 			ms := yaml.MapSlice{}
 			for _, k := range keys {
 				ms = append(ms, yaml.MapItem{Key: k, Value: out[k]})
